@@ -49,6 +49,8 @@ type cfgOut struct {
 	Servers     []string          `json:"servers,omitempty"`
 	Schemes     []string          `json:"schemes,omitempty"`
 	Controllers []string          `json:"controllers,omitempty"` // tags of the documented operations' controllers
+	Info        any               `json:"info,omitempty"`        // the document's info object
+	SecSchemes  any               `json:"secSchemes,omitempty"`  // the document's components.securitySchemes
 	PermParse   *cfgPerm          `json:"permParse,omitempty"` // definitions.PermissionStringToFileMod on the configured string
 	LibOracle   map[string]bool   `json:"_lib"`                  // "tag|value" -> go-playground verdict (url, email, filepath)
 	Strings     map[string]string `json:"_strings,omitempty"`
@@ -202,6 +204,10 @@ func implCfg(in json.RawMessage) (any, error) {
 				var doc map[string]any
 				if json.Unmarshal(b, &doc) == nil {
 					out.OpenAPI, _ = doc["openapi"].(string)
+					out.Info = doc["info"]
+					if comps, ok := doc["components"].(map[string]any); ok {
+						out.SecSchemes = comps["securitySchemes"]
+					}
 					if info, ok := doc["info"].(map[string]any); ok {
 						out.Title, _ = info["title"].(string)
 						out.Version, _ = info["version"].(string)
@@ -330,6 +336,16 @@ func genCfg(seed uint64, n int, tier string, emit func(string, []string, any)) {
 		{path: append(append([]string{}, o...), "info"), vals: []any{"text", nil}},
 		{path: append(append([]string{}, o...), "securitySchemes"), vals: []any{[]any{}, nil, []any{map[string]any{"description": "d", "name": "sec0", "fieldName": "x-key", "type": "apiKey", "in": "header"}, map[string]any{"description": "", "name": "9", "type": "nope", "in": "body"}}}},
 		{path: append(append([]string{}, o...), "defaultSecurity", "scopes"), vals: []any{[]any{}, nil}},
+		{path: append(append([]string{}, o...), "securitySchemes"), vals: []any{
+			[]any{map[string]any{"description": "d", "name": "sec0", "fieldName": "x-key", "type": "apiKey", "in": "header"},
+				map[string]any{"description": "bearer auth", "name": "bear", "type": "http", "scheme": "bearer"}},
+			[]any{map[string]any{"description": "d", "name": "sec0", "fieldName": "x-key", "type": "apiKey", "in": "query"},
+				map[string]any{"description": "oauth", "name": "oa", "type": "oauth2", "flows": map[string]any{
+					"authorizationCode": map[string]any{"authorizationUrl": "https://a.example.com/auth", "tokenUrl": "https://a.example.com/token", "scopes": map[string]any{"items:read": "read items"}},
+					"clientCredentials": map[string]any{"tokenUrl": "https://a.example.com/token", "scopes": map[string]any{"items:admin": "administer"}}}}},
+			[]any{map[string]any{"description": "d", "name": "sec0", "fieldName": "x-key", "type": "apiKey", "in": "cookie"},
+				map[string]any{"description": "oidc", "name": "oidc", "type": "openIdConnect", "openIdConnectUrl": "https://id.example.com/.well-known/openid-configuration"}},
+		}},
 		{path: append(append([]string{}, rc...), "validateResponsePayload"), vals: []any{true, "yes"}},
 		{path: append(append([]string{}, rc...), "outputFilePerms"), del: true},
 		{path: append(append([]string{}, rc...), "packageName"), vals: []any{"api", "", "my_routes"}},
@@ -354,6 +370,10 @@ func genCfg(seed uint64, n int, tier string, emit func(string, []string, any)) {
 		{path: append(append([]string{}, o...), "securitySchemes", "fieldName"), vals: []any{"", "9x", "x-key", "\u05d0-key", "\u00d7x", "-x"}},
 		{path: append(append([]string{}, o...), "securitySchemes", "openIdConnectUrl"), vals: []any{"nope", "https://id.example.com"}},
 		{path: append(append([]string{}, o...), "securitySchemes"), del: true},
+		{path: append(append([]string{}, o...), "info", "contact"), vals: []any{map[string]any{"url": "https://e.com", "email": "a@e.com"}, map[string]any{"name": "only name"}, map[string]any{"email": "x@y.z"}}},
+		{path: append(append([]string{}, o...), "info", "license"), vals: []any{map[string]any{"name": "MIT"}}},
+		{path: append(append([]string{}, o...), "info", "termsOfService"), vals: []any{"https://tos.example.com", ""}},
+		{path: append(append([]string{}, o...), "info", "description"), vals: []any{"", "long description"}},
 		{path: append(append([]string{}, o...), "defaultSecurity"), del: true},
 		{path: append(append([]string{}, o...), "defaultSecurity", "name"), vals: []any{"", "9bad"}},
 		{path: append(append([]string{}, o...), "defaultSecurity", "scopes"), del: true},
@@ -370,6 +390,19 @@ func genCfg(seed uint64, n int, tier string, emit func(string, []string, any)) {
 			d := deepCopy(baseConfig()).(map[string]any)
 			setPath(d, m.path, v, false)
 			emit("cfg", []string{"set"}, cfgIn{Config: d, Note: fmt.Sprintf("set %s=%v", strings.Join(m.path, "."), v)})
+		}
+	}
+	// the honoured-in-output half under the other OpenAPI version as well
+	for _, m := range muts {
+		last := m.path[len(m.path)-1]
+		if m.del || !(last == "contact" || last == "license" || last == "termsOfService" || last == "description" || last == "securitySchemes") {
+			continue
+		}
+		for _, v := range m.vals {
+			d := deepCopy(baseConfig()).(map[string]any)
+			setPath(d, m.path, v, false)
+			setPath(d, []string{"openapiGeneratorConfig", "openapi"}, "3.1.0", false)
+			emit("cfg", []string{"set31"}, cfgIn{Config: d, Note: fmt.Sprintf("3.1.0 + set %s=%v", strings.Join(m.path, "."), v)})
 		}
 	}
 	// random double corruptions
